@@ -230,6 +230,10 @@ class Suite:
         """a key identifying the non-trivial branch the case exercised (None = trivial)"""
         return "case"
 
+    def known_scope(self, case) -> str | None:
+        """signature under which a model/implementation divergence on this case is a recorded finding, if any"""
+        return None
+
 
 class Result:
     def __init__(self):
@@ -290,6 +294,13 @@ def run_suite(suite: Suite, seed: int, tier: str, res: Result, deadline: float) 
                 sigs = [s for s, _ in suite.oracle(case, obs)]
                 if sigs and all(match_known(PROP[0], s) for s in sigs):
                     continue
+                scope = suite.known_scope(case)  # the case lies inside the scope of a recorded defect
+                if scope:
+                    k = match_known(PROP[0], scope)
+                    if k:
+                        if not any(w == k["what"] for _, w in res.known):
+                            res.known.append((scope, k["what"]))
+                        continue
                 ok = False
                 res.disagreements.append((suite.name, case, obs, mobs, diffs))
     res.suites_ok[suite.name] = ok
